@@ -29,7 +29,7 @@ def gen_file(rng):
     audio = bytes(rng.randrange(256) for _ in range(rng.choice([0, 5, 40, 200, 700])))
     items = [(b"Title", b"x" * rng.choice([0, 1, 50])), (b"Artist", b"yy")][:rng.choice([1, 2])]
     kind = rng.choice(["none", "tag", "tag", "tag-noheader", "tag+v1", "tag+lyrics+v1", "at-start", "at-start-only", "double-header",
-                       "size-too-big", "size-small", "footer-only-short", "v1-only", "lyrics+v1", "tag+junk", "tiny", "bad-lyrics-size"])
+                       "size-too-big", "size-small", "footer-only-short", "at-start-size-too-big", "at-start-truncated", "v1-only", "lyrics+v1", "tag+junk", "tiny", "bad-lyrics-size"])
     t = ape_tag(items)
     if kind == "none":
         data = audio
@@ -45,6 +45,14 @@ def gen_file(rng):
         data = t + audio + b"some audio that is long enough to keep the end clean" * 3
     elif kind == "at-start-only":
         data = t
+    elif kind == "at-start-size-too-big":
+        # a header at offset 0 whose size field reaches beyond the end of the file (or exactly to it)
+        total = len(t) + len(audio) + 150
+        tt = bytearray(t); struct.pack_into("<L", tt, 12, total - 32 + rng.choice([-1, 0, 1, 40, 100000]))
+        data = bytes(tt) + audio + b"some audio that is long enough to keep the end clean" * 3
+        data = data[:total]
+    elif kind == "at-start-truncated":
+        data = (t + audio)[:rng.choice([24, 31, 32, 33, 40, len(t) - 1, len(t)])] + b"\0" * rng.choice([0, 0, 200])
     elif kind == "double-header":
         # pre-Mutagen PyMusepack: the first 24 bytes of an old header left in front
         data = audio + t[:24] * rng.choice([1, 2, 3]) + t
